@@ -15,7 +15,7 @@ import ChessVerif.Proofs.SearchFinal
 namespace ChessVerif
 namespace Search
 
-variable {σ π : Type}
+variable {σ π : Type} [PsInv σ]
 
 /-- every window the aspiration loop of one iteration re-searches with is `RootWin`
     (mirrors the recursion of `aspiration`). -/
@@ -75,14 +75,14 @@ theorem rootWin_first {sample w : Int} (hs : InR sample) (hw : 0 ≤ w ∧ w ≤
 
 /-- iteration 0 searches the root by quiescence only: PV row 0 stays empty. -/
 theorem alphaBeta_depth0_row (c : Comp σ π) (L : Limits) {Good : Board → Prop} (hl : Laws c Good) (fuel : Nat)
-    (alpha beta : Score) (s : St σ) (hg : Good s.board) :
+    (alpha beta : Score) (s : St σ) (hg : Good s.board) (hok : PsInv.ok s.ps) :
     (alphaBeta c L fuel alpha beta 0 0 .pv s).2.pv.row 0 = [] := by
   cases fuel with
   | zero => exact setNull_row_self _ _
   | succ fuel =>
     simp only [alphaBeta]
     rw [if_pos (Or.inl True.intro)]
-    have := quiescence_spec c L hl (fuel + 1) alpha beta 0 (s.setPv (s.pv.setNull (0 : Int).toNat)) hg
+    have := quiescence_spec c L hl (fuel + 1) alpha beta 0 (s.setPv (s.pv.setNull (0 : Int).toNat)) hg hok
     rw [this.2]
     exact setNull_row_self _ _
 
@@ -104,12 +104,12 @@ theorem aspiration_score (c : Comp σ π) (L : Limits) {Good : Board → Prop} {
       fun _ _ _ _ h => by simp [aspiration] at h⟩
   | succ n ih =>
     intro alpha beta factor s hg htt hw hs
-    have hab := alphaBeta_spec c L hl fuel alpha beta idD 0 .pv s hg (Int.le_refl 0)
+    have hab := alphaBeta_spec c L hl fuel alpha beta idD 0 .pv s hg (sl.tt_ok _ htt) (Int.le_refl 0)
     have hrg := alphaBeta_range c L hl sl fuel alpha beta idD 0 .pv s hg (Int.le_refl 0) (by decide) hw.1 htt
     have hroot := fun (h1 : 1 ≤ idD) => alphaBeta_root' c L hl sl fuel alpha beta hw idD h1 s hg htt
-    have hfin := fun (h1 : 1 ≤ idD) (hf : Final c.keys s.board) => alphaBeta_final c L hl sl fuel alpha beta hw idD h1 s hg hf
+    have hfin := fun (h1 : 1 ≤ idD) (hf : Final c.keys s.board) => alphaBeta_final c L hl sl fuel alpha beta hw idD h1 s hg (sl.tt_ok _ htt) hf
     have hrow : idD = 0 → (alphaBeta c L fuel alpha beta idD 0 .pv s).2.pv.row 0 = [] := by
-      intro h; rw [h]; exact alphaBeta_depth0_row c L hl fuel alpha beta s hg
+      intro h; rw [h]; exact alphaBeta_depth0_row c L hl fuel alpha beta s hg (sl.tt_ok _ htt)
     simp only [aspiration]
     simp only [aspSane] at hs
     simp only at hroot hfin
@@ -118,7 +118,7 @@ theorem aspiration_score (c : Comp σ π) (L : Limits) {Good : Board → Prop} {
     have hap := (abort_pv L r.2).1
     have hps := abort_ps L r.2
     have hat := abort_true_iff L r.2
-    have hfa := @abort_false σ L r.2
+    have hfa := @abort_false σ _ L r.2
     generalize abort L r.2 = as at haf hap hps hat hfa hs ⊢
     have htt2 : TTok as.2.ps := by rw [hps]; exact hrg.1
     split
@@ -194,7 +194,7 @@ theorem idLoop_score (c : Comp σ π) (L : Limits) (clock : Clock) {Good : Board
         apply hcond
         have e1 : decide (idD < maxPlies) = false := decide_eq_false (by unfold maxPlies; omega)
         simp [e1]
-      have hasp := aspiration_spec c L hl fuel idD fuel v.alpha v.beta 1 s (by rw [hb]; exact hg)
+      have hasp := aspiration_spec c L hl fuel idD fuel v.alpha v.beta 1 s (by rw [hb]; exact hg) (sl.tt_ok _ htt)
       have hsc := aspiration_score c L hl sl fuel idD fuel v.alpha v.beta 1 s (by rw [hb]; exact hg) htt hw hs.1
       have hs2 := hs.2
       generalize aspiration c L fuel idD fuel v.alpha v.beta 1 s = a at hasp hsc hs2 ⊢
